@@ -346,6 +346,56 @@ def serializeHtmlWrite (env : Env) (p : HtmlParams) (t : Tree) (start : Path) : 
     | none => writeHtmlGo c t (htmlInitState c t start) (genOutputs t start)
   (htmlDoctype ++ body.1, body.2)
 
+/-! ### The same in front of a writer that can fail (`Model/Writer.lean`) -/
+
+/-- The `write_all` calls of `Html5Serializer::serialize_node` once the token is rendered:
+    `if data.space { w.write_all(b" ")?; }  w.write_all(data.text.as_bytes())?;`. -/
+def htmlTokenCalls (k : OutputToken) : List Str := (if k.space then [htmlTokenSpace] else []) ++ [k.text]
+
+/-- One `self.serialize_node(w, node, output)?` of `Html5Serializer::serialize`: `render_output(..)?`
+    first, then the token's calls. -/
+def htmlStepCalls (c : HtmlCtx) (t : Tree) (s : HState) (po : Path × Output) :
+    List Str × Outcome XotError HState :=
+  match renderHtmlAt c t s po.1 po.2 with
+  | .ok (s', tok) => (htmlTokenCalls tok, .ok s')
+  | .err e => ([], .err e)
+  | .panic => ([], .panic)
+
+/-- One iteration of `Html5Serializer::serialize_pretty`'s loop: indentation (`?`), `serialize_node`
+    (render — may fail —, space, text), newline (`?`). -/
+def htmlPrettyStepCalls (c : HtmlCtx) (suppress : List Nat) (t : Tree) (st : PStack × HState)
+    (po : Path × Output) : List Str × Outcome XotError (PStack × HState) :=
+  let (ps', ind, nl) := prettifyHtmlAt c suppress t st.1 po.1 po.2
+  let pre : List Str := if ind > 0 then [htmlIndentBytes ind] else []
+  match renderHtmlAt c t st.2 po.1 po.2 with
+  | .ok (s', tok) => (pre ++ htmlTokenCalls tok ++ (if nl then [htmlNewline] else []), .ok (ps', s'))
+  | .err e => (pre, .err e)
+  | .panic => (pre, .panic)
+
+/-- `xot.html5().serialize_write(parameters, node, w)` for any writer: `w.write_all(b"<!DOCTYPE html>")?`
+    first, then `serialize_pretty(w, ..)?` / `serialize(w, ..)?`.  Bytes the writer holds at the end and
+    how the call returns. -/
+def serializeHtmlWriteW (P : WriterPolicy) (env : Env) (p : HtmlParams) (t : Tree) (start : Path) :
+    Str × Outcome XotError Unit :=
+  let c := htmlCtx env p
+  match writeCalls P [] [htmlDoctype] with
+  | .error b => (b, .err .io)
+  | .ok h1 =>
+    match p.indentation with
+    | some suppress =>
+      writeLoopW P (htmlPrettyStepCalls c suppress t) h1 ([], htmlInitState c t start) (genOutputs t start)
+    | none => writeLoopW P (htmlStepCalls c t) h1 (htmlInitState c t start) (genOutputs t start)
+
+/-- The calls `serialize_write` makes when none is refused, in order, and how it ends. -/
+def serializeHtmlCalls (env : Env) (p : HtmlParams) (t : Tree) (start : Path) :
+    List Str × Outcome XotError Unit :=
+  let c := htmlCtx env p
+  let body := match p.indentation with
+    | some suppress =>
+      callsLoop (htmlPrettyStepCalls c suppress t) ([], htmlInitState c t start) (genOutputs t start)
+    | none => callsLoop (htmlStepCalls c t) (htmlInitState c t start) (genOutputs t start)
+  ([htmlDoctype] ++ body.1, body.2)
+
 /-- `xot.html5().serialize_string(parameters, node)`. -/
 def serializeHtmlString (env : Env) (p : HtmlParams) (t : Tree) (start : Path) : Outcome XotError Str :=
   bufferToString (serializeHtmlWrite env p t start)
